@@ -41,7 +41,7 @@ if REPO != Path("/repo"):
     subprocess.run(["rsync", "-a", "--exclude", "Cases/", "--exclude", "Gen/*", "--exclude", ".lock",
                     str(VERIF / "coq") + "/", str(COQ) + "/"], check=False)
     (COQ / "Gen").mkdir(exist_ok=True)
-NCPU = os.cpu_count() or 4
+NCPU = int(os.environ.get("VERIF_NCPU", "0") or 0) or os.cpu_count() or 4
 
 FORBIDDEN = re.compile(
     r"\b(Admitted|admit|Axiom|Axioms|Parameter|Parameters|Conjecture|Conjectures|Hypothesis|Hypotheses|Variable|Variables)\b"
@@ -83,6 +83,13 @@ def sh(cmd, timeout=900, cwd=None, env=None, input=None):
 
 
 def ensure_makefile():
+    import fcntl
+    with open(COQ / ".mk.lock", "w") as lk:
+        fcntl.flock(lk, fcntl.LOCK_EX)
+        _ensure_makefile()
+
+
+def _ensure_makefile():
     mk = COQ / "Makefile"
     proj = COQ / "_CoqProject"
     files = sorted(
